@@ -103,6 +103,14 @@ def score_events(order: str, r) -> List[Dict[str, Any]]:
                 if not (res3['raised'] and 'TypeError' in res3.get('msg', '')):
                     e3.update(res3)
                     evs.append(e3)
+                # an unsigned count (a row of a result table kept as uint8 / uint16)
+                e4 = dict(e, tid=f'{order[0]}{k}.npu')
+                for key in ('raised', 'res', 'msg'):
+                    e4.pop(key, None)
+                res4 = _call(score.calc_score, c, (np.uint32 if k % 2 else np.uint16)(t))
+                if not (res4['raised'] and ('TypeError' in res4.get('msg', '') or 'OverflowError' in res4.get('msg', ''))):
+                    e4.update(res4)
+                    evs.append(e4)
             except ImportError:
                 pass
         if order == 'shuffled' and k % 5 == 0:
@@ -375,8 +383,8 @@ def imp_events(tier: str, r) -> List[Dict[str, Any]]:
             dv = conv(d)
             e = {'tid': f't{k}.{name}', 'ev': 'imp', 'd': int(dv), 'entry': name}
             res = _call(f, dv)
-            if name.startswith('np.') and res['raised'] and 'TypeError' in res.get('msg', ''):
-                continue
+            if name.startswith('np.') and name != 'np.int64' and res['raised'] and 'TypeError' in res.get('msg', ''):
+                continue          # (numpy's own default integer is an integer: it must be answered)
             e.update(res)
             evs.append(e)
             e2 = {'tid': f't{k}.{name}.2', 'ev': 'imp2', 'a': int(dv), 'b': 50, 'entry': name}
